@@ -20,7 +20,7 @@ THEOREMS = [
     "C06.nested_complete", "C06.nested_empty", "C06.dict_roundtrip", "C06.nested_roundtrip",
     "C06.rows_roundtrip", "C06.rows_roundtrip_attrs",
     "C06.newick_table_ok", "C06.newick_table_is_generated", "C06.newick_stack_invariant", "C06.newick_roundtrip",
-    "C06.newick_quoting",
+    "C06.newick_quoting", "C06.newick_roundtrip_attrs",
 ]
 PROOF_IMPORTS = ["BigtreeProofs.Properties.C06"]
 
@@ -777,8 +777,10 @@ LEVEL_TEXT = ("Proof. Lean 4 theorems (C06.*) about hand-written models of the e
               "by `decide` on a table regenerated from constants.py on every run). The models are tied to /repo on every run by "
               "differential testing of the real exporters/constructors (pandas and polars through the real libraries) against the "
               "compiled model, incl. an exhaustive malformed-Newick stream; a model-free oracle re-reads the property on the real "
-              "objects. PARTIAL: the Newick theorem covers names (default writer options); length/attribute options of the Newick "
-              "writer/parser and the printed-tree round trip (owned by C18) rest on the tie.")
+              "objects. newick_roundtrip_attrs extends the Newick round trip to the length attribute (positive integers) and attribute "
+              "lists (quote-free string values; keys/values with other specials are quoted). Resting on the tie only: the other "
+              "writer options (intermediate_node_name=False, non-default separators), the parser's rejection branches, and the "
+              "printed-tree round trip (model and theorem owned by C18).")
 LEVEL_NOTE = ("Trusted: Lean kernel, axioms <= {propext, Classical.choice, Quot.sound} (audited each run), the hand-written models' "
               "correspondence to export.py / construct.py as established by the tie (not proved), harness/tables.py, CPython, pandas, "
               "polars. A DataFrame is modelled as a list of records plus column normalisation; attribute values are null|int|str; one-"
